@@ -813,7 +813,31 @@ struct CGlueTraitObj<T, {vtbl}Vtbl<CGlueObjContainer<T, C, R>>, C, R> {{
         let context_map = ContextType::get_prefix_map();
 
         let default_cont = config.default_container.as_deref().unwrap_or("");
-        let default_ctx = config.default_context.as_deref().unwrap_or("");
+        // `NoContext` is the documented name of the empty context prefix
+        let default_ctx = match config.default_context.as_deref() {
+            Some("NoContext") | None => "",
+            Some(ctx) => ctx,
+        };
+
+        // A default template argument can only name a type the header declares
+        let is_declared = |cpp_type: &str| match cpp_type.split('<').next() {
+            Some("NoContext") => header.contains("using NoContext = void;"),
+            Some(ty @ "CArc") | Some(ty @ "CBox") => header.contains(&format!("struct {} {{", ty)),
+            _ => true,
+        };
+
+        let default_ctx_declared = context_map
+            .get(default_ctx)
+            .map(|ctx| is_declared(ctx.cpp_type))
+            .unwrap_or(false);
+
+        // CGlueCtx follows CGlueInst in every template, so CGlueInst can only have a default
+        // if CGlueCtx has one.
+        let default_cont_declared = default_ctx_declared
+            && container_map
+                .get(default_cont)
+                .map(|cont| is_declared(cont.cpp_type))
+                .unwrap_or(false);
 
         let mut ty = String::new();
 
@@ -827,7 +851,10 @@ struct [^\{\}\n]+<.*CGlueCtx.*>)?",
 
             header = ctx_regex
                 .replace_all(&header, |caps: &Captures| {
-                    if caps.name("eq").is_some() || caps.name("specialization").is_some() {
+                    if caps.name("eq").is_some()
+                        || caps.name("specialization").is_some()
+                        || !default_ctx_declared
+                    {
                         caps.get(0).unwrap().as_str().to_string()
                     } else {
                         format!("typename CGlueCtx = {}", ctx.cpp_type)
@@ -846,7 +873,10 @@ struct [^\{\}\n]+<.*CGlueInst.*>)?",
 
             header = ctx_regex
                 .replace_all(&header, |caps: &Captures| {
-                    if caps.name("eq").is_some() || caps.name("specialization").is_some() {
+                    if caps.name("eq").is_some()
+                        || caps.name("specialization").is_some()
+                        || !default_cont_declared
+                    {
                         caps.get(0).unwrap().as_str().to_string()
                     } else {
                         format!("typename CGlueInst = {}", ctx.cpp_type)
@@ -888,7 +918,11 @@ struct [^\{\}\n]+<.*CGlueInst.*>)?",
                         if let Some(args) = caps.name("template_args") {
                             ret += "<";
                             for arg in args.as_str().split("typename").map(|s| s.trim()) {
-                                ret += arg;
+                                // Pass the parameter on, without its default argument
+                                ret += arg.split('=').next().unwrap_or(arg).trim();
+                                if arg.contains('=') && arg.ends_with(',') {
+                                    ret += ",";
+                                }
                             }
                             ret += ">";
                         }
